@@ -154,7 +154,8 @@ def gen_c17(rnd, n, thorough=False):
                 pts = [(now - j * S, small_value(rnd)) for j in range(N) if rnd.chance(0.7)]
                 if pts:
                     lines.append("many f %d %d %d %s" % (a, now, len(pts), " ".join("%d %016x" % tv for tv in pts)))
-            lines += ["sync f", "open f"]          # a fresh handle: no page is cached yet
+            # a fresh handle: no page is cached yet (sometimes one that holds no lock and was opened for reading only)
+            lines += ["sync f", "openro f" if rnd.chance(0.35) else "open f"]
             lines.append("confetch f %d %d %d %d" % (rnd.randint(2, 8), rnd.randint(5, 20), rnd.getrandbits(31), now))
             # afterwards the handle still answers like the model
             for a in range(k):
